@@ -943,10 +943,14 @@ func (t *FnTrans) ghostAt(where string) {
 					}
 				}
 			}
-			// "ghost before/after call X": arg0, arg1, ... name the actual arguments of the call (for a statically
-			// dispatched method call arg0 is the receiver)
+			// "ghost before/after call X": arg0, arg1, ... name the actual arguments of the call (for method
+			// calls arg0 is the receiver)
 			if t.lastCall != nil && strings.Contains(where, " call ") {
-				for i, a := range t.lastCall.Args {
+				callArgs := t.lastCall.Args
+				if t.lastCall.IsInvoke() {
+					callArgs = append([]ssa.Value{t.lastCall.Value}, callArgs...) // interface method call: arg0 is the receiver
+				}
+				for i, a := range callArgs {
 					if v, ok := t.vals[a]; ok || isConst(a) {
 						if !ok {
 							v = t.val(a)
